@@ -152,6 +152,27 @@ func inflectConcChild(args []string) error {
 	}
 	close(start)
 	wg.Wait()
+	if reps >= 10 {
+		// heavy round: too many events to log one by one - report, per key, every distinct value any caller got
+		seen := map[string]map[string]int{}
+		for _, evs := range per {
+			for _, e := range evs {
+				if e.Ev == "ret" {
+					if seen[e.K] == nil {
+						seen[e.K] = map[string]int{}
+					}
+					seen[e.K][e.V]++
+				}
+			}
+		}
+		sum := []inflectEvent{}
+		for _, k := range SortedKeysOf(seen) {
+			for _, v := range SortedKeysOf(seen[k]) {
+				sum = append(sum, inflectEvent{Ev: "ret", G: seen[k][v], K: k, V: v})
+			}
+		}
+		return json.NewEncoder(os.Stdout).Encode(map[string]any{"events": []inflectEvent{}, "summary": sum})
+	}
 	all := []inflectEvent{}
 	for _, e := range per {
 		all = append(all, e...)
@@ -160,11 +181,22 @@ func inflectConcChild(args []string) error {
 	return json.NewEncoder(os.Stdout).Encode(map[string]any{"events": all})
 }
 
+// SortedKeysOf returns the sorted keys of a string-keyed map.
+func SortedKeysOf[V any](m map[string]V) []string {
+	ks := make([]string, 0, len(m))
+	for k := range m {
+		ks = append(ks, k)
+	}
+	sort.Strings(ks)
+	return ks
+}
+
 func inflectConc(c core.CaseIn, ic inflectCase, rng *rand.Rand, emit func(cas, conc, obs any)) error {
 	raceBin := os.Getenv("GVH_RACE")
 	if raceBin == "" {
 		return fmt.Errorf("GVH_RACE not set")
 	}
+	var summary []inflectEvent
 	run := func(bin string, g, reps int) (events []inflectEvent, stderr string, err error) {
 		args := append([]string{"child", "inflect-conc", fmt.Sprint(g), fmt.Sprint(reps), fmt.Sprint(rng.Int64())}, ic.Keys...)
 		cmd := exec.Command(bin, args...)
@@ -173,14 +205,17 @@ func inflectConc(c core.CaseIn, ic inflectCase, rng *rand.Rand, emit func(cas, c
 		cmd.Env = append(os.Environ(), "GORACE=halt_on_error=0")
 		err = cmd.Run()
 		var out struct {
-			Events []inflectEvent `json:"events"`
+			Events  []inflectEvent `json:"events"`
+			Summary []inflectEvent `json:"summary"`
 		}
 		if e := json.Unmarshal(so.Bytes(), &out); e != nil && err == nil {
 			err = e
 		}
+		summary = out.Summary
 		return out.Events, se.String(), err
 	}
 	evs, stderr, err := run(raceBin, ic.G, ic.Reps)
+	heavy := summary
 	race := strings.Contains(stderr, "DATA RACE")
 	crashed := err != nil && !race
 	ref, _, rerr := run(raceBin, 1, 1)
@@ -200,6 +235,13 @@ func inflectConc(c core.CaseIn, ic inflectCase, rng *rand.Rand, emit func(cas, c
 	tail := stderr
 	if len(tail) > 600 {
 		tail = tail[:600]
+	}
+	if heavy == nil {
+		heavy = []inflectEvent{}
+	}
+	// the heavy summary is judged like events: every (key, value) a caller got must be the reference's
+	for _, e := range heavy {
+		evs = append(evs, inflectEvent{Ev: "call", G: 1000 + len(evs), K: e.K}, inflectEvent{Ev: "ret", G: 1000 + len(evs), K: e.K, V: e.V})
 	}
 	emit(nil, map[string]any{"law": false}, map[string]any{"events": evs, "reference": reference, "race": race, "crashed": crashed, "stderr": tail})
 	return nil
@@ -260,6 +302,15 @@ func (inflectFam) Rand(n int, rng *rand.Rand, emit func(cas any)) error {
 	rounds := n / 150
 	if rounds < 4 {
 		rounds = 4
+	}
+	for i := 0; i < max(2, rounds/3); i++ {
+		// heavy rounds: 16 goroutines, 40 distinct prefixed irregular words, 12 repetitions - different inputs in flight all the time
+		keys := []string{}
+		irr := []string{"person", "tooth", "foot", "ox", "child", "man", "goose", "hero", "potato", "move"}
+		for j := 0; j < 40; j++ {
+			keys = append(keys, []string{"plural", "singular"}[j%2]+":"+fmt.Sprintf("p%d%s%s", j, []string{".", "-", " ", "/"}[j%4], irr[rng.IntN(len(irr))]))
+		}
+		emit(map[string]any{"kind": "conc", "g": 16, "keys": keys, "reps": 12})
 	}
 	for i := 0; i < rounds; i++ {
 		keys := []string{}
